@@ -27,7 +27,7 @@ PROPS = {
     },
     "C03": {
         "level": "exploration",
-        "steps": [("hv", "C03x", {}), ("hv", "C03s", {"_scale": 0.5}), ("py", "san", "miri", "thorough_only")],
+        "steps": [("hv", "C03x", {}), ("hv", "C03s", {"_scale": 0.5}), ("hv", "wasmapi", {}), ("py", "san", "miri", "thorough_only")],
         "rule": "(a) exhaustive edit primitive: all texts of length 0..5 over {a,b,c} x all spans x Replace(len 0..3)/InsertAfter(len 0..2)/Remove "
                 "against an independent splice; (b) every lint and suggestion produced by the C01 document stream: span inside text, apply == "
                 "reference splice; non-trivial = lint with >= 1 suggestion not at offset 0; distinct = hash(message, flagged text)",
@@ -162,7 +162,7 @@ PROPS = {
     },
     "C13": {
         "level": "exploration",
-        "steps": [("hv", "C13x", {}), ("hv", "C13s", {"_scale": 0.5}), ("py", "san", "miri", "thorough_only")],
+        "steps": [("hv", "C13x", {}), ("hv", "C13s", {"_scale": 0.5}), ("hv", "wasmapi", {}), ("hv", "cli", {}), ("py", "san", "miri", "thorough_only")],
         "rule": "(a) exhaustive: all lists of <= 4 spans over positions 0..5 (21 spans); random lists up to 200 spans; "
                 "(b) every lint list of the C01 document stream; clauses: output is a sub-multiset, kept lints pairwise disjoint, each "
                 "dropped lint starts inside a kept one; then fixes applied back to front == any order with offset bookkeeping; "
